@@ -93,3 +93,39 @@ Definition k_mtrace (tab : list sigdesc) (doms : list domcfg) (t : ftree) (reads
   let ms := frag_mems f in
   let s0 := minit D ms in
   flat_map (fun s => map (fst s) reads ++ concat (snd s)) (s0 :: mrun D ms evs s0).
+
+(* ---------- late-bound signals, transformer / prepare errors: answers start with 1, or are [-1; code]
+   (code 1 AssertionError, 2 DomainError) ---------- *)
+Definition k_xfrm_cs (base : nat) (tab : list sigdesc) (t : ftree) : list Z :=
+  match elab_cs base (mk_tab tab) t with
+  | Some f => 1 :: enc_frag f
+  | None => [-1; 1]
+  end.
+
+Definition lowered (base : nat) (tab : list sigdesc) (doms : list domcfg) (f : frag) : design * list meminst :=
+  ({| g_tab := mk_tab tab; g_doms := mk_doms doms;
+      g_procs := map (lower_entry base (mk_doms doms)) (flatten f); g_nsig := length tab |},
+   map (lower_mem base (mk_doms doms)) (frag_mems f)).
+
+Definition with_design (base ndom : nat) (tab : list sigdesc) (doms : list domcfg) (t : ftree)
+  (k : design -> list meminst -> list Z) : list Z :=
+  match elab_cs base (mk_tab tab) t with
+  | None => [-1; 1]
+  | Some f =>
+      let err := prepare_error base ndom (mk_doms doms) f in
+      if err =? 0 then let dm := lowered base tab doms f in 1 :: k (fst dm) (snd dm) else [-1; err]
+  end.
+
+Definition trace_of (stp : design -> event -> env -> env) (reads : list nat) (evs : list event) (D : design) : list Z :=
+  let e0 := init_env D in
+  flat_map (fun en => map en reads) (e0 :: run_with stp D evs e0).
+
+Definition k_trace_cs (base ndom : nat) tab doms t reads evs : list Z :=
+  with_design base ndom tab doms t (fun D _ => trace_of step reads evs D).
+(* spec stream: the faithful trace followed by the spec trace (a listed finding must leave the first half exact) *)
+Definition k_trace_both (base ndom : nat) tab doms t reads evs : list Z :=
+  with_design base ndom tab doms t (fun D _ => trace_of step reads evs D ++ trace_of step_spec reads evs D).
+Definition k_mtrace_cs (base ndom : nat) tab doms t reads evs : list Z :=
+  with_design base ndom tab doms t (fun D ms =>
+    let s0 := minit D ms in
+    flat_map (fun s => map (fst s) reads ++ concat (snd s)) (s0 :: mrun D ms evs s0)).
